@@ -1665,6 +1665,9 @@ func (self *ReplicationAckDB) ProcessLeaderPushLock(glockIndex uint16, aofLock *
 	if lock == nil {
 		return nil
 	}
+	if lock.command == nil {
+		return nil
+	}
 	self.ackGlocks[glockIndex].Lock()
 	if self.manager.slock.state != STATE_LEADER {
 		self.ackGlocks[glockIndex].Unlock()
